@@ -213,6 +213,12 @@ def stepLine (s : S) (req resp : List String) : S × List String :=
     (s, if resp == ["err", "invalid_task"] then [] else
       ["MON C14 a snapshot containing an invalid task was not refused: " ++ " ".intercalate resp])
   | _ =>
+    -- ctx flag "2": the context was cancelled WHILE the call was running (at the implementation's first clock read).
+    -- An implementation may complete the operation and report success (flag 0), or fail without effect (flag 1): the
+    -- observed response decides which of the two is demanded; an error TOGETHER with an effect is `MON C01` below.
+    let req := match req with
+      | o :: "2" :: rest => o :: (if resp.head? == some "err" then "1" else "0") :: rest
+      | _ => req
     match decReq req with
     | none => (s, ["DIFF parse bad request " ++ " ".intercalate req])
     | some (op, ctx, now, kind) =>
